@@ -194,7 +194,8 @@ SPEC = dict(
          "capacity of read-only arguments poisoned) and in the plain debug build (debug_assert alignment checks, misaligned-pointer checks), each in a child "
          "process that is restarted after a death. Per op the harness records the parameter tuple the kernel is entered with "
          "(L, rows, capacity, wrap, M, strides, row range) and the outcome; the driver evaluates the extracted wrapper + footprint "
-         "model on that tuple: PROPFAIL = sanitizer report / crash / symbol code >= K left in a caller buffer; DIFF = guard outcome "
+         "model on that tuple: PROPFAIL = sanitizer report / crash (SIGSEGV on a guard page, abort) / damaged canary in the spare capacity of a "
+         "destination / symbol code >= K left in a caller buffer; DIFF = guard outcome "
          "(panic / early return / rows written) or stride differs from the model, or the extracted checker all_ok rejects a model "
          "access. Source tie: 497 memory-relevant statements of the 44 functions the model was transcribed from are compared with "
          "their pinned text, and every `unsafe` must lie inside them. Non-trivial: distinct histories with an op that enters an "
@@ -206,6 +207,10 @@ SPEC = dict(
         "size, K), comparison of guard outcomes; the in-bounds/alignment verdict itself is the extracted all_ok, proved sound)",
         "Rust harness harness/src/bin/footprint.rs (op interpreter over the public API, catch_unwind, child-process orchestration, "
         "poisoning of spare capacity through __asan_poison_memory_region); its sanitizer self-test runs on every check",
+        "non-temporal stores (_mm256_stream_*, _mm_stream_ps: every score row and every striped block) are inline assembly in "
+        "std::arch and NOT seen by AddressSanitizer (self-test `stream-oob` survives under ASan): for them the plain build uses a "
+        "guard-page global allocator (every allocation of alignment >= 32, i.e. every DenseMatrix, ends at an inaccessible page) "
+        "and the harness keeps a canary/snapshot in the spare capacity of destination matrices (stripe_into, score_*_into)",
         "AddressSanitizer of the nightly toolchain (rustc -Zsanitizer=address, compiler-rt): shadow memory, redzones of the "
         "instrumented allocator; only lightmotif, its dependencies and the harness are instrumented (std is not rebuilt)",
         "translate/footprint_src.py (brace-matching reader of the Rust sources; pinned text translate/footprint_pinned.json)",
